@@ -114,12 +114,13 @@ def systematic_scenarios():
         for chan in ("inband", "exec"):
             for a in SYS_OUTCOMES:
                 for b in SYS_OUTCOMES:
-                    for da, db in ((0, 8), (8, 0)):
+                    # both completion orders (one is enough for two equal outcomes and for a run without -S / -k)
+                    for da, db in (((0, 8), (8, 0)) if a != b and (S or k) else ((0, 8),)):
                         out.append({"S": S, "k": k, "fanout": 32, "cmdtmo": 0,
                                     "hosts": [mk_host(chan, a, da), mk_host(chan, b, db)]})
             for bad in SYS_OUTCOMES[1:]:
                 for pos in range(3):
-                    for fanout, dbad, dok in ((32, 8, 0), (32, 0, 8), (1, 0, 0)):
+                    for fanout, dbad, dok in (((32, 8, 0), (32, 0, 8), (1, 0, 0)) if (S or k) else ((32, 8, 0),)):
                         hosts = [mk_host(chan, ("exited", 0), dok) for _ in range(3)]
                         hosts[pos] = mk_host(chan, bad, dbad)
                         out.append({"S": S, "k": k, "fanout": fanout, "cmdtmo": 0, "hosts": hosts})
@@ -646,7 +647,7 @@ def run(ctx):
                              "exited %s ms later with code %s: the code reported for a host must be the status the command "
                              "actually terminated with" % (ans[0], h[1:].split("_")[0], end[1:]), {"op": "xd " + h, "impl": ans[0]})
         # ---- (b) real dsh() on the scripted transport -----------------------------------------------
-        nd = 250 if ctx.quick() else 6000
+        nd = 180 if ctx.quick() else 6000
         sysc = systematic_scenarios()
         dist["dsh_systematic"] = len(sysc)
         scns = load_corpus_scn(magic) + sysc + [gen_scenario(rng, magic) for _ in range(nd)]
@@ -654,7 +655,7 @@ def run(ctx):
             ex = exhaustive_vectors()
             dist["exhaustive_vectors"] = len(ex)
             scns += ex
-        raws = [gen_raw_scenario(rng, magic) for _ in range(150 if ctx.quick() else 3000)]
+        raws = [gen_raw_scenario(rng, magic) for _ in range(100 if ctx.quick() else 3000)]
         # time-outs (-u 1): an idle or a CHATTY command (the latter makes the worker notice the expiry itself at the top of
         # its poll loop), dying on SIGTERM or trapping it and returning a code; 1-2 s each, one harness process each
         tscns = systematic_timeouts()
